@@ -34,15 +34,13 @@ Check C08_alloc_plain :
 Check C08_depth :
   forall decompress ft v2 cmp stream,
   c_depth (snd (decode decompress ft v2 cmp stream)) <= DEPTH_LIMIT.
-Check C08_fuel_enough_partial :
-  forall custom decompress,
-  (forall s, fst (custom s) <> Err EOutOfFuel) ->
-  forall ft v2 cmp stream st,
-  fst (decode_frame custom decompress ft v2 cmp stream) <> OErr st EOutOfFuel.
+Check C08_fuel_enough :
+  forall decompress ft v2 cmp stream st,
+  fst (decode decompress ft v2 cmp stream) <> OErr st EOutOfFuel.
 Print Assumptions C08_roundtrip.
 Print Assumptions C08_truncation.
 Print Assumptions C08_truncation_body.
 Print Assumptions C08_alloc.
 Print Assumptions C08_alloc_plain.
 Print Assumptions C08_depth.
-Print Assumptions C08_fuel_enough_partial.
+Print Assumptions C08_fuel_enough.
